@@ -152,6 +152,9 @@ type vpConn struct {
 	nclose   int
 	readsAfterClose int
 	block    bool // natively: Read blocks when the script is exhausted (a quiet backend)
+	peerStopsReading bool // writes block (send buffer full) until the connection is closed
+	writeDeadline    bool // a write deadline is in force
+	closedCh         chan struct{}
 	mu       sync.Mutex // net.Conn implementations are safe for concurrent use
 }
 
@@ -184,22 +187,31 @@ func (c *vpConn) Read(b []byte) (int, error) {
 }
 
 // vpWaitClosed: the reader of a quiet connection waits until somebody closes it (forever if nobody does).
-func vpWaitClosed(c *vpConn) {
-	for i := 0; ; i++ {
-		c.mu.Lock()
-		cl := c.closed
-		c.mu.Unlock()
-		if cl {
-			return
+func vpWaitClosed(c *vpConn) { <-c.closedChan() }
+
+// closedChan is closed when the connection is.
+func (c *vpConn) closedChan() chan struct{} {
+	c.mu.Lock()
+	defer c.mu.Unlock()
+	if c.closedCh == nil {
+		c.closedCh = make(chan struct{})
+		if c.closed {
+			close(c.closedCh)
 		}
-		if !vpSymbolic() && i > 3000 {
-			vpBlockForever()
-		}
-		vpWaitProgress()
 	}
+	return c.closedCh
 }
 
 func (c *vpConn) Write(b []byte) (int, error) {
+	if c.peerStopsReading {
+		// the peer's receive window and the local send buffer are full: the write blocks until the
+		// connection is closed, or fails once a write deadline set by the caller expires
+		if c.writeDeadline {
+			return 0, errors.New("vpConn: i/o timeout")
+		}
+		vpWaitClosed(c)
+		return 0, vpErrClosed
+	}
 	c.mu.Lock()
 	defer c.mu.Unlock()
 	if c.closed {
@@ -214,15 +226,18 @@ func (c *vpConn) Write(b []byte) (int, error) {
 func (c *vpConn) Close() error {
 	c.mu.Lock()
 	defer c.mu.Unlock()
+	if !c.closed && c.closedCh != nil {
+		close(c.closedCh)
+	}
 	c.closed = true
 	c.nclose++
 	return nil
 }
 func (c *vpConn) LocalAddr() net.Addr                { return nil }
 func (c *vpConn) RemoteAddr() net.Addr               { return nil }
-func (c *vpConn) SetDeadline(t time.Time) error      { return nil }
+func (c *vpConn) SetDeadline(t time.Time) error      { c.writeDeadline = !t.IsZero(); return nil }
 func (c *vpConn) SetReadDeadline(t time.Time) error  { return nil }
-func (c *vpConn) SetWriteDeadline(t time.Time) error { return nil }
+func (c *vpConn) SetWriteDeadline(t time.Time) error { c.writeDeadline = !t.IsZero(); return nil }
 
 func vpUser() identity.Identity {
 	u := identity.NewUser()
